@@ -233,7 +233,52 @@ def rule_edge_fields(P):
     return R
 
 
-RULES = [rule_callers, rule_active_count, rule_cache_before_rewrite, rule_exchange_once, rule_edge_fields]
+def rule_edge_set_balance(P):
+    """dd_edge::set(n) *takes over* a reference the caller already holds on n (the operations call res.set(v, p) with the p they were given) and gives
+    up the edge's reference on its old node: with a live forest every path through it releases exactly one reference.  set_and_link(n) is the
+    non-consuming twin: it may return at once when the edge already holds n, otherwise it links n and unlinks the old node.  Seed C06d copied the
+    twin's shortcut into set(): the reference handed over is then never released — a silent leak in every no-change round of a fixed-point loop"""
+    import re as _re
+    R = RuleResult("layer.edge-set-balance", "dd_edge::set(node_handle): every path to the exit passes forest::unlinkNode unless it took the forest-is-gone arm; dd_edge::set_and_link: every path passes linkNode and unlinkNode together or neither")
+    nz = lambda t: _re.sub(r"\s+|this->", "", t or "")
+    fs = [f for f in P.find(M + "dd_edge::set") if f.get("cfg") and len(f.get("params", [])) == 1]
+    if not fs:
+        raise AnalysisBroken("layer.edge-set-balance: dd_edge::set(node_handle) not found")
+    for f in fs[:1]:
+        g = Graph(f)
+        R.functions.add(f["inst"])
+        R.paths += 1
+        gone = lambda b, arm: b.kind == "branch" and b.cond and len(b.succ) == 2 and b.cond.get("op") == "truth" and _re.fullmatch(r"!?\w+", nz(b.cond["text"])) and any(k.kind == "ldef" and k.ev["var"] == nz(b.cond["text"]).lstrip("!") and "getForestWithID" in (k.ev.get("rhs") or "") for k in g.nodes) and arm == (0 if b.cond.get("neg") else 1)
+        pth = g.path(g.entry, lambda x: x.id == g.exit, avoid=lambda x: x.kind == "call" and x.ev["q"].endswith("forest::unlinkNode"), avoid_edge=gone)
+        iid = "dd_edge::set(n) releases one reference on every path with a live forest"
+        if pth:
+            R.fail(iid, where(f), Finding(R.rule, f["file"], f["q"], "set-without-release", "dd_edge::set(n) consumes a reference on n; a path returns with the forest alive and without unlinkNode: the reference handed over (or the old one) is never released", f["line"], show_path(pth)))
+        else:
+            R.ok(iid, where(f))
+    for f in [f for f in P.find(M + "dd_edge::set_and_link") if f.get("cfg")][:1]:
+        g = Graph(f)
+        R.functions.add(f["inst"])
+        is_l = lambda x: x.kind == "call" and x.ev["q"].endswith("forest::linkNode")
+        is_u = lambda x: x.kind == "call" and x.ev["q"].endswith("forest::unlinkNode")
+        for what, a, b in (("links without unlinking", is_l, is_u), ("unlinks without linking", is_u, is_l)):
+            R.paths += 1
+            iid = "dd_edge::set_and_link never %s" % what
+            bad = None
+            for k in g.nodes:
+                if a(k):
+                    before = g.path(g.entry, lambda x, k=k: x.id == k.id, avoid=b)
+                    after = g.path(k.id, lambda x: x.id == g.exit, avoid=b)
+                    if before and after:
+                        bad = before + after[1:]
+            if bad:
+                R.fail(iid, where(f), Finding(R.rule, f["file"], f["q"], "unbalanced:" + what.split()[0], "a path through dd_edge::set_and_link %s: the edge's count on the old or the new node is off by one" % what, f["line"], show_path(bad)))
+            else:
+                R.ok(iid, where(f))
+    R.require_floor(3, "reference obligations of the dd_edge root setters")
+    return R
+
+
+RULES = [rule_callers, rule_active_count, rule_cache_before_rewrite, rule_exchange_once, rule_edge_fields, rule_edge_set_balance]
 
 
 def rule_result_by_value(P):
